@@ -60,7 +60,7 @@ def project_scenario(s, src, extra_ops=(), parsed=False):
 # random projects
 # --------------------------------------------------------------------------------------
 PKGS = [["p"], ["p", "q"], ["pkg"], ["other", "pkg"], ["g"], ["kg"]]
-NAMES = ["Foo", "XFoo", "FooX", "Bar", "Baz", "Qux", "Foo2", "IFoo"]
+NAMES = ["Foo", "XFoo", "FooX", "Bar", "Baz", "Qux", "Foo2", "IFoo", "IBinder", "ParcelFileDescriptor"]
 BUILTINS = ["IBinder", "FileDescriptor", "ParcelFileDescriptor", "ParcelableHolder"]
 MNAMES = ["f", "g", "h", "get", "set", "f2"]
 CODES = ["", "", "", "1", "2", "3", "01", "10", "4294967295", "0", "007"]
